@@ -21,6 +21,14 @@ DET = {
  "C19-m1": ("C19", "./check C19 --tier quick -> exit 1 (Lt/Gt/Leq/Geq with an operand (p-1)/2)", ""),
  "C19-m2": ("C19", "./check C19 --tier quick -> exit 1 (Shr/Shl of operands >= 2^192 by 1..63)", ""),
  "C20-m1": ("C20", "./check C20 and ./check C19 --tier quick -> exit 1 (Lor of operands summing to p)", ""),
+ "C09-m1": ("C09", "./check C09 --tier quick -> exit 1 (Poseidon of 8 inputs: round certificate rejected)", ""),
+ "C09-m2": ("C09", "./check C09 --tier quick -> exit 1 (byte-level / FFI hash of a 4097-byte signal differs from Keccak.tla)", "missed at first; hash-to-field lengths 4095, 4096, 4097 (8192, 10000 thorough) added"),
+ "C11-m1": ("C11", "./check C11 --tier quick -> exit 1 (metadata after set_tree differs between FFI and API)", "missed at first; life-cycle scenario and set_tree inside random histories added"),
+ "C11-m2": ("C11", "./check C11 --tier quick -> exit 1 (FFI reports success where the API reports an error on a full tree)", ""),
+ "C17-m1": ("C17", "./check C17 --tier quick -> exit 1 (optimal build: root differs after appending the default value)", "missed at first; histories now append default values and delete at/above the mark; judge compares roots only (result flags of no-op deletions legitimately differ)"),
+ "C17-m2": ("C17", "./check C17 --tier quick -> exit 1 (full build: root differs after delete at the mark + append)", "as C17-m1"),
+ "C18-m1": ("C18", "./check C18 --tier quick -> exit 1 (pool-size transcripts differ)", "equal-leaf batches added to the pool workload"),
+ "C18-m2": ("C18", "./check C18 --tier quick -> exit 1 (hand-over re-creation fails at once with 'could not acquire lock')", "missed at first; hand-over cycles added"),
  "C20-m2": ("C20", "./check C20 --tier quick -> exit 1 (stored constants 128..255 come back negative)", ""),
 }
 conf = {}
